@@ -597,7 +597,11 @@ def table_cycle(ck, F):
                   sample={"append": "extend_from_slice", "source": d})
         else:
             ck.ob(R, "cycle_endpoint|other-append %s" % k, False, "unexpected mutation `%s` of the result" % k, f, l)
-    ck.ob(R, "cycle_endpoint|append-sites", len(pushes) == 4, "expected 2 '$' pushes, the column and the row, found %s" % kinds, ce.file, ce.line)
+    if not pushes:
+        # nothing appended in cycle_endpoint itself: the assembly was moved out of the function; say so instead of claiming a violation
+        ck.ob(R, "cycle_endpoint|append-sites", False, "the statements that append to cycle_endpoint's result were not found in the function (anchor lost)", ce.file, ce.line)
+    else:
+        ck.ob(R, "cycle_endpoint|append-sites", len(pushes) == 4, "expected 2 '$' pushes, the column and the row, found %s" % kinds, ce.file, ce.line)
 
 
 def char_units(ck, F, rule="CHAR-UNITS"):
